@@ -53,6 +53,30 @@ func BcryptGenerateFromPassword(password []byte, cost int) ([]byte, error) {
 	return []byte(BcMake(string(password), verif.FreshString("bcsalt!alnum", BcSaltLen))), nil
 }
 
+// BcryptCost models bcrypt.Cost: it parses the textual shape of a real bcrypt hash
+// ("$2" + minor + "$" + two cost digits + "$" + 53 characters, at least 59 bytes). The ideal
+// hashes of this model are shorter and are rejected like any other string that is not a hash.
+func BcryptCost(h []byte) (int, error) {
+	if len(h) < 59 {
+		return 0, ErrHashTooShort
+	}
+	if h[0] != '$' || h[1] != '2' {
+		return 0, &bcErr{"crypto/bcrypt: bcrypt hashes must start with '$2'"}
+	}
+	n := 2
+	if h[2] != '$' {
+		n = 3
+	}
+	if h[n] != '$' || h[n+1] < '0' || h[n+1] > '9' || h[n+2] < '0' || h[n+2] > '9' {
+		return 0, &bcErr{"crypto/bcrypt: malformed cost"}
+	}
+	cost := int(h[n+1]-'0')*10 + int(h[n+2]-'0')
+	if cost < 4 || cost > 31 {
+		return 0, &bcErr{"crypto/bcrypt: cost out of range"}
+	}
+	return cost, nil
+}
+
 func BcryptCompareHashAndPassword(hash, password []byte) error {
 	if BcMatches(string(hash), string(password)) {
 		return nil
